@@ -4,6 +4,18 @@ import random
 
 NTY = 2
 
+class Parents:
+    """Tracks `set_parent` operations so that no scenario builds a parent cycle (Bevy's `set_parent` does not check;
+    `despawn_recursive` on a cyclic hierarchy is Bevy-internal behaviour the model does not describe)."""
+    def __init__(self): self.parent = {}
+    def line(self, c, p):
+        x = p
+        while x is not None:
+            if x == c: return None          # p is c or a descendant of c
+            x = self.parent.get(x)
+        self.parent[c] = p
+        return "top wsetparent %s %s" % (c, p)
+
 class G:
     def __init__(self, rng, profile="mix"):
         self.r = rng
@@ -166,6 +178,7 @@ def gen_mix(rng, size=1.0, weights=None, body_weights=None, wr_prob=0.3):
         if rng.random() < 0.6: setup.append("insert e%d %d %d" % (e, g.ty(), rng.randrange(3)))
     out.append("top acts %d" % len(setup)); out += setup
     ntop = rng.randint(2, int(6 * size) + 2)
+    parents = Parents()
     for _ in range(ntop):
         x = rng.random()
         if x < 0.6:
@@ -180,7 +193,9 @@ def gen_mix(rng, size=1.0, weights=None, body_weights=None, wr_prob=0.3):
         elif x < 0.91: out.append("top wsysevent %s %d %d" % (g.sref(), g.ty(), g.newpid()))
         elif x < 0.94: out.append("top wbroadcast %d %d" % (g.ty(), g.newpid()))
         elif x < 0.97: out.append("top wentevent %s %d %d" % (g.anyref(), g.ty(), g.newpid()))
-        else: out.append("top wsetparent %s %s" % (g.eref(), g.eref()))
+        else:
+            l = parents.line(g.eref(), g.eref())
+            if l: out.append(l)
     out.append("top frameend")
     return "\n".join(out) + "\n"
 
@@ -190,6 +205,7 @@ def gen_signals(rng):
     n = rng.randint(2, 5)
     out.append("top acts %d" % n); out += ["spawn"] * n
     nsig = 0
+    parents = Parents()
     for _ in range(rng.randint(4, 14)):
         x = rng.random()
         if x < 0.22 or nsig == 0: out.append("top sigprepare e%d" % rng.randrange(n)); nsig += 1
@@ -202,7 +218,9 @@ def gen_signals(rng):
         elif x < 0.96:
             # a fresh entity: Bevy hands out the most recently freed slot again (a stale signal must not hit it)
             out += ["top acts 1", "spawn"]; n += 1
-        else: out.append("top wsetparent e%d e%d" % (rng.randrange(n), rng.randrange(n)))
+        else:
+            l = parents.line("e%d" % rng.randrange(n), "e%d" % rng.randrange(n))
+            if l: out.append(l)
     out.append("top frameend")
     return "\n".join(out) + "\n"
 
@@ -389,6 +407,7 @@ def gen_dsp(rng):
     for e in range(nE):
         if rng.random() < 0.5: setup.append("insert e%d 0 1" % e)
     out.append("top acts %d" % len(setup)); out += setup
+    parents = Parents()
     for _ in range(rng.randint(3, 8)):
         x = rng.random()
         if x < 0.65:
@@ -406,7 +425,9 @@ def gen_dsp(rng):
         elif x < 0.85: out.append("top frameend")
         elif x < 0.9: out.append("top gc")
         elif x < 0.95: out.append("top wdespawn e%d" % rng.randrange(nE))
-        else: out.append("top wsetparent e%d e%d" % (rng.randrange(nE), rng.randrange(nE)))
+        else:
+            l = parents.line("e%d" % rng.randrange(nE), "e%d" % rng.randrange(nE))
+            if l: out.append(l)
     out.append("top frameend")
     return "\n".join(out) + "\n"
 
